@@ -777,6 +777,46 @@ def genString (bind : Nat → String → String) : Def → GMethod
           body := if tys.isEmpty then .lit (n ++ "::" ++ vn)
                   else concatParts ([.lit (n ++ "::" ++ vn ++ "(")] ++ stringEnumParts 0 tys ++ [.lit ")"]) } }
 
+/-! ### what the generated bodies compute -/
+
+/-- the runtime helpers the bodies call by name (`builtin.gom`, `go/runtime.rs`) -/
+def helperSem (f : String) (v : Val) : Option (List Char) :=
+  match v with
+  | .str s => if f = "json_escape_string" then some (jsonQuote s) else none
+  | .bool b => if f = "bool_to_json" || f = "bool_to_string" then some (if b then "true".toList else "false".toList) else none
+  | .unit => if f = "unit_to_string" then some "()".toList else none
+  | .int i =>
+    if ["int8_to_string", "int16_to_string", "int32_to_string", "int64_to_string", "uint8_to_string", "uint16_to_string",
+        "uint32_to_string", "uint64_to_string"].contains f then some (showInt i) else none
+  | .float t => if f = "float32_to_string" || f = "float64_to_string" then some t else none
+  | _ => none
+
+/-- value of a generated expression under the arm's bindings: literals, a string-typed variable,
+    helper calls, the derived methods of the field's own type, `+` -/
+def evalG (Δ : Defs) (ρ : List (String × Val)) : GExpr → Option (List Char)
+  | .lit s => some s.toList
+  | .var x =>
+    match ρ.find? (fun p => p.1 == x) with
+    | some (_, .str s) => some s
+    | _ => none
+  | .callFn f (.var x) =>
+    match ρ.find? (fun p => p.1 == x) with
+    | some (_, v) => helperSem f v
+    | none => none
+  | .callFn _ _ => none
+  | .callMethod (.var x) m =>
+    match ρ.find? (fun p => p.1 == x) with
+    | some (_, v) =>
+      if m = Gen.Derive.toJsonFn then some (toJson Δ v)
+      else if m = Gen.Derive.toStringFn then some (toString Δ v)
+      else none
+    | none => none
+  | .callMethod _ _ => none
+  | .concat l r =>
+    match evalG Δ ρ l, evalG Δ ρ r with
+    | some a, some b => some (a ++ b)
+    | _, _ => none
+
 /-- the binder choice of the derive as it is now: a struct field is bound to `__field<idx>` -/
 def bindFresh (idx : Nat) (_field : String) : String := fieldBinder idx
 
